@@ -295,6 +295,11 @@ class AnyState(State):
     """
 
     def _on_event_defined(self, event: str, transition: Transition, states: List[State]):
+        if getattr(transition, "_expanded", False):
+            # already expanded when the declaring class was built: a subclass re-registers the
+            # inherited events and must not append the same transitions to the shared states again
+            return
+        transition._expanded = True  # type: ignore[attr-defined]
         for state in states:
             if state.final:
                 continue
